@@ -86,7 +86,7 @@ def twoSite (j : Rat) (a b : Bool) : Rat := absR j + (if a = b then -j else j)
 
 /-- `longitudinal_hamiltonian` -/
 def longitudinal (h : Rat) (i o : Bool) : Rat :=
-  absR h + (if i = o then (if i then h else -h) else 0)
+  if i = o then absR h + (if i then h else -h) else 0
 
 /-- `QmcIsingGraph::hamiltonian(info, vars, bond, ins, outs)` -/
 def Ising.w (E : Ising) (bond : Nat) (ins outs : List Bool) : Rat :=
